@@ -71,12 +71,23 @@ class Sched:
         self.threads: list[LThread] = []
         self.by_ident: dict[int, LThread] = {}
         self.events: list[tuple] = []           # (thread, kind, obj, value)
-        self.aborted: str | None = None
+        self._aborted: str | None = None
+        self.abort_index: int | None = None     # number of events logged when the run was cut
         self.lock = _real_threading.Lock()
         self.listeners: list[Callable[[tuple], None]] = []
         self.interrupt_at: int | None = None    # k-th yield of the control thread raises KeyboardInterrupt
         self._ctl_yields = 0
         self.eps = 1e-9
+
+    @property
+    def aborted(self) -> str | None:
+        return self._aborted
+
+    @aborted.setter
+    def aborted(self, reason: str | None) -> None:
+        if self._aborted is None and reason is not None:
+            self.abort_index = len(self.events)
+        self._aborted = reason
 
     # ---- thread bookkeeping ---------------------------------------------------------------
     def adopt_current(self, name: str) -> LThread:
